@@ -5,8 +5,8 @@ CONSTANTS
   ThetaVecs <- Theta1
   AllCompletions = FALSE
   FW = 8
-  MaxRounds = 1
-  MaxRefresh = 1
+  MaxRounds = 4
+  MaxRefresh = 3
   PrivateSlice = TRUE
   KeepHist = FALSE
   CheckRand = FALSE
